@@ -176,11 +176,13 @@ type FaultPlan struct {
 // ScriptedFault fires once, as soon as AfterAcked client commands have been
 // answered.
 type ScriptedFault struct {
-	AfterAcked int    `json:"after_acked"`
-	Kind       string `json:"kind"` // crash | crash-seam | crash-all | partition | isolate-leader | heal | restart | slow-node
-	Node       int    `json:"node,omitempty"`
-	Seam       string `json:"seam,omitempty"`      // before-sync | after-sync | send | reply
-	Countdown  int    `json:"countdown,omitempty"` // k-th crossing of that seam from now (default 1)
+	AfterAcked int `json:"after_acked"`
+	// AfterMsgSnap: fire only once node Node has been handed a MsgSnap.
+	AfterMsgSnap bool   `json:"after_msgsnap,omitempty"`
+	Kind         string `json:"kind"` // crash | crash-seam | crash-all | partition | isolate-leader | heal | restart | slow-node
+	Node         int    `json:"node,omitempty"`
+	Seam         string `json:"seam,omitempty"`      // before-sync | after-sync | send | reply
+	Countdown    int    `json:"countdown,omitempty"` // k-th crossing of that seam from now (default 1)
 	// Lose: which unsynced sectors the crash loses: none | all | first | last
 	Lose  string `json:"lose,omitempty"`
 	Hold  int    `json:"hold,omitempty"`
